@@ -80,19 +80,9 @@ def _compute_branches(  # pylint:disable=too-many-locals
     syntenies = rec.syntenies if isinstance(rec, SuperReconciliationOutput) else {}
 
     # Propagate color feature downwards in the tree
-    last_color = None
-    last_color_node = None
-
     for root_gene in gene_tree.traverse("preorder"):
-        if hasattr(root_gene, "color"):
-            last_color = root_gene.color
-            last_color_node = root_gene
-        elif last_color_node is not None:
-            if last_color_node in root_gene.iter_ancestors():
-                root_gene.add_feature("color", last_color)
-            else:
-                last_color = None
-                last_color_node = None
+        if not hasattr(root_gene, "color") and hasattr(root_gene.up, "color"):
+            root_gene.add_feature("color", root_gene.up.color)
 
     # Find gene tree nodes associated to each species and create branches
     for root_species in species_tree.traverse("postorder"):
